@@ -21,3 +21,4 @@ pub fn point(tag: &'static str, v: u64) {
 
 /// re-exports, for direct harnessing, of otherwise private items
 pub use crate::streams_manager::StreamsManagerBase;
+pub use crate::incremental_averages::AtomicIncrementalAverage64;
